@@ -6,7 +6,7 @@ from ..common import ERR, FAIL, PASS, run_rule
 from ..engine import Result
 from ..impl import BIG_TREES, build, mkrule, plan_graph_shards, rule_specs, shard_graphs
 from ..refmodel import rule_three_valued, spec_to_json
-from ..spaces import trees
+from ..spaces import renamed_graph, trees
 
 ID = "C01"
 RULE = (
@@ -26,10 +26,14 @@ ASSUMPTIONS = [
 def plan(tier, seed):
     if tier == "quick":
         shards = plan_graph_shards("A", n_max=4, chunk=16)
+        for naming in ("adversarial", "selfprefix"):
+            shards += [dict(s, naming=naming, bound=s["bound"] + " naming=" + naming) for s in plan_graph_shards("A", n_max=4, chunk=16)]
         shards += plan_graph_shards("B", n_max=5, n_min=5, k=2, parts=4)
         shards += plan_graph_shards("B", k=2, parts=8, with_ext=True, tree_list=list(trees(4)))
     else:
         shards = plan_graph_shards("A", n_max=5, chunk=32)
+        for naming in ("adversarial", "selfprefix", "unicode"):
+            shards += [dict(s, naming=naming, bound=s["bound"] + " naming=" + naming) for s in plan_graph_shards("A", n_max=5, chunk=64)]
         shards += plan_graph_shards("B", n_max=6, n_min=6, k=3, parts=16)
         shards += plan_graph_shards("B", k=3, parts=16, with_ext=True, tree_list=list(trees(5)))
         shards += plan_graph_shards("B", k=2, parts=16, with_ext=True, tree_list=list(BIG_TREES))
@@ -48,7 +52,7 @@ def _specs(ns):
     if key not in _SPEC_CACHE:
         big = len(ns) > 7
         _SPEC_CACHE.clear()
-        _SPEC_CACHE[key] = rule_specs(ns, max_s=2 if big else 3, max_o=2 if big else 3)
+        _SPEC_CACHE[key] = rule_specs(ns, max_s=2 if big else 3, max_o=2 if big else 3, overlap=not big)
     return _SPEC_CACHE[key]
 
 
@@ -78,6 +82,7 @@ def judge(ns, I, spec, ev, seed, res: Result | None):
 def run_shard(shard, tier, seed):
     res = Result(shard["bound"])
     for ns, I in shard_graphs(shard, seed):
+        ns, I = renamed_graph(ns, I, shard.get("naming", "identity"))
         ev = build(ns, I, seed)
         res.states += 1
         specs = _specs(ns)
